@@ -1,12 +1,18 @@
 #!/usr/bin/env python3
-"""Run the repository's gtest binaries (from /repo/_build, already built) and compare the set of passing
-test cases with /root/.vp/BASELINE.json stable_pass. Usage: tools_baseline.py [build_dir]"""
+"""Build the repository (cmake --build <build_dir>: a target that no longer COMPILES is a failure, even if a stale
+binary of it is still around), run its gtest binaries and compare the set of passing test cases with
+/root/.vp/BASELINE.json stable_pass. Usage: tools_baseline.py [build_dir]"""
 import json, subprocess, sys, os, glob, re, tempfile
 import xml.etree.ElementTree as ET
 bd = sys.argv[1] if len(sys.argv) > 1 else '/repo/_build'
 base = json.load(open('/root/.vp/BASELINE.json'))
 stable = set(base['stable_pass'])
 passed = set()
+b = subprocess.run(['cmake', '--build', bd, '-j12'], capture_output=True, text=True)
+if b.returncode != 0:
+    print('BUILD FAILED (cmake --build %s):' % bd)
+    print((b.stdout + b.stderr)[-3000:])
+    sys.exit(2)
 for exe in sorted(glob.glob(os.path.join(bd, 'bin', '*-test'))):
     out = tempfile.mktemp(suffix='.xml')
     p = subprocess.run([exe, '--gtest_output=xml:' + out], capture_output=True, text=True, timeout=900, cwd=os.path.join(bd, 'test') if os.path.isdir(os.path.join(bd, 'test')) else bd)
